@@ -13,9 +13,12 @@ PREDS = ('parentOf', 'childOf', 'ancestorOf', 'descendantOf')
 LABEL_SETS = [
     ['HP:1', 'HP:10', 'HP:2', 'HP:02', 'MP:1'],
     ['owl:Thin', 'owl:Thinh', 'ZZ:9', 'a:1', 'HP:3'],
+    # nested prefixes whose continuation sorts BEFORE ':' (TermId order = (prefix, id) differs from the order of the CURIE strings)
+    ['ICD:A', 'ICD10:A', 'ICD:B', 'ICD10:B', 'ICD1:A'],
     ['HP:1', 'HPX:1', 'HP:A', 'A_B:1', 'A:B_1'],
     ['HP:0000001', 'HP:0000118', 'HP:0000002', 'MONDO:1', 'HP:0000003'],
     ['x:2', 'x:1', 'X:2', 'X:1', 'x:11'],
+    ['OMIM:1', 'OMIM.PS:1', 'OMIM:2', 'OMIM.PS:2', 'OMIM-X:1'],
 ]
 
 
@@ -220,11 +223,13 @@ def exhaustive_graphs(k, label_sets):
 def random_labels(rng, n):
     pools = [lambda i: f'HP:{i:07d}', lambda i: f'HP:{i}', lambda i: f'MP:{i}', lambda i: f'A_B:{i}', lambda i: f'x:{i:02d}',
              lambda i: f'owl:T{i}', lambda i: f'ZZ:{i}', lambda i: f'HPX:{i}']
-    style = rng.choice(['hp7', 'mixed', 'hpnum', 'twins'])
+    style = rng.choice(['hp7', 'mixed', 'hpnum', 'twins', 'nested'])
     out = set()
     while len(out) < n:
         i = rng.randrange(1, 5 * n + 5)
-        if style == 'twins':       # few local ids under several prefixes: HP:3, MP:3, MAXO:3 ... differ in the prefix only
+        if style == 'nested':      # one prefix extends another with a character below ':' ('0'-'9', '.', '-')
+            out.add(f'{rng.choice(["HP", "HP2", "HP.X", "ICD", "ICD10", "OMIM", "OMIM.PS", "HP-A"])}:{rng.randrange(1, n + 2)}')
+        elif style == 'twins':       # few local ids under several prefixes: HP:3, MP:3, MAXO:3 ... differ in the prefix only
             out.add(f'{rng.choice(["HP", "MP", "MAXO", "hp"])}:{rng.randrange(1, max(2, n // 2 + 1)):07d}')
         elif style == 'hp7':
             out.add(pools[0](i))
